@@ -42,6 +42,7 @@ def run(ctx, crate):
     rule_drop_finish_once(ctx, crate)
     rule_iter_finish(ctx, crate)
     rule_is_finished(ctx, crate)
+    D.rule_finished_draws_forced(ctx, crate)
 
 
 def status_stores(b):
